@@ -1,0 +1,16 @@
+//go:build verif
+
+package waitlist
+
+import "github.com/MinterTeam/minter-go-node/coreV2/types"
+
+// VerifLoaded lists every address held in the in-memory cache (loaded or dirty).
+func (wl *WaitList) VerifLoaded() []types.Address {
+	wl.lock.RLock()
+	defer wl.lock.RUnlock()
+	res := make([]types.Address, 0, len(wl.list))
+	for k := range wl.list {
+		res = append(res, k)
+	}
+	return res
+}
